@@ -311,6 +311,11 @@ pub fn profile(prop: &str) -> Option<Profile> {
             fo.push(f(Op::Take, TAKE_REMOVE, VIA_ERASED, SINK_MUTATE, 0));
             fo.push(f(Op::Take, TAKE_SWAP_REMOVE, VIA_ERASED, SINK_SWAP, 0));
             fo.push(f(Op::Take, TAKE_POP, VIA_ERASED, SINK_INSPECT, 0));
+            // a swap with a value of another type must be refused, not carried out over the
+            // bytes of the element and its neighbours
+            for form in 0..2u8 {
+                fo.push(f(Op::TypeProbe, TP_SWAP, 0, 0, form));
+            }
             p.focus = fo;
             p
         }
@@ -399,7 +404,7 @@ pub fn owned(prop: &str, v: &Violation) -> bool {
         "C11" => v.class == HeapUseOnStack || (v.on_stack && (content || (strict && ledger) || v.class == RelaxedInvalid || v.class == LenGtCap)),
         "C12" => matches!(v.class, Misaligned | Views) || (v.op == Op::Views && content),
         // (an iterator item that is not the element at its position is C13's as much as C14's)
-        "C13" => strict && content && (matches!(v.op, Op::Get | Op::Mutate | Op::Swap | Op::Iter) || (v.op == Op::Take && v.via == VIA_ERASED && matches!(v.sink, SINK_MUTATE | SINK_SWAP | SINK_INSPECT))),
+        "C13" => strict && content && (matches!(v.op, Op::Get | Op::Mutate | Op::Swap | Op::Iter) || (v.op == Op::TypeProbe && v.sink == TP_SWAP) || (v.op == Op::Take && v.via == VIA_ERASED && matches!(v.sink, SINK_MUTATE | SINK_SWAP | SINK_INSPECT))),
         "C14" => strict && ((v.op == Op::Iter && content) || (matches!(v.op, Op::Drain | Op::Splice) && v.class == EvMismatch && !v.panic_involved)),
         "C17" => strict && v.op == Op::RawTrip,
         "C18" => matches!(v.class, Alloc | HeapLeak | HeapBlock | Memcheck) || (crash && v.detail.contains("allocator monitor")),
